@@ -42,6 +42,22 @@ class CallGraph:
             return {ref['v']}  # keep the alias name; Library.resolve()/fn() follow it
         if k == 'n' or k == 'u':
             return set()
+        if k == 'a':
+            # a function-pointer parameter of an internal function that is only ever called directly: the union of the
+            # functions passed at its call sites (context-insensitive); anything else is unknown
+            tag = ('arg', f.key, ref['v'])
+            if tag in seen:
+                return set()
+            seen.add(tag)
+            sites = self.direct_sites.get(f.key)
+            if not f.internal or not sites or f.name in self.addr_taken_names:
+                return {None}
+            out = set()
+            for (cf, ci) in sites:
+                if ref['v'] >= len(ci.ops):
+                    return {None}
+                out |= self.fn_constants(cf, ci.ops[ref['v']], seen)
+            return out
         if k == 'i':
             if ref['v'] in seen:
                 return set()
@@ -58,6 +74,38 @@ class CallGraph:
                 return self.fn_constants(f, i.ops[0], seen)
             return {None}
         return {None}
+
+    def _param_only_called(self, t, idx, seen):
+        """parameter idx of the internal, never address-taken function t is used only as the target of calls (or handed on
+        to a parameter with the same discipline)"""
+        if (t.key, idx) in seen:
+            return True
+        seen.add((t.key, idx))
+        if not t.internal or t.name in self.addr_taken_names:
+            return False
+
+        def is_param(ref):
+            r = _strip(ref)
+            return r.get('k') == 'a' and r.get('v') == idx
+
+        for i in t.all_instrs():
+            if i.op == 'call':
+                for ai, a in enumerate(i.ops):
+                    if is_param(a):
+                        u = self.lib.resolve(t.unit, i['callee']) if (i.get('callee') is not None and not i.get('intrinsic')) else None
+                        if u is None or not self._param_only_called(u, ai, seen):
+                            return False
+                continue
+            for o in i.ops:
+                if isinstance(o, dict) and is_param(o):
+                    if i.op == 'bitcast':
+                        return False        # keep it simple: a cast parameter is not followed
+                    return False
+            if i.op == 'phi':
+                for v, _ in i['incoming']:
+                    if is_param(v):
+                        return False
+        return True
 
     def slot_key(self, f, ref, depth=0):
         """(struct tag, byte offset) of the memory location `ref` points to, or None"""
@@ -165,6 +213,20 @@ class CallGraph:
     # ---- construction --------------------------------------------------------------------------
     def _build(self):
         lib = self.lib
+        # direct call sites per callee and the names whose address is taken (needed to resolve function-pointer parameters)
+        self.direct_sites = defaultdict(list)
+        self.addr_taken_names = set()
+        for f in lib.functions.values():
+            for i in f.all_instrs():
+                if i.op == 'call' and not i.get('intrinsic') and i.get('callee') is not None:
+                    t = lib.resolve(f.unit, i['callee'])
+                    if t is not None:
+                        self.direct_sites[t.key].append((f, i))
+                if i.op in ('store', 'ret'):
+                    for o in i.ops[:1]:
+                        r = _strip(o)
+                        if r.get('k') == 'g' and r.get('fn'):
+                            self.addr_taken_names.add(r['v'])
         for f in lib.functions.values():
             for i in f.all_instrs():
                 if i.op == 'store':
@@ -181,11 +243,17 @@ class CallGraph:
                         for x in real:
                             self.address_taken[x].append((f, i, 'store'))
                 elif i.op == 'call':
-                    # function addresses passed as arguments escape
-                    for a in i.ops:
+                    # function addresses passed as arguments escape - unless the callee is an internal function called only
+                    # directly whose parameter is used as a call target only (resolved through fn_constants)
+                    for ai, a in enumerate(i.ops):
                         fns = {x for x in self.fn_constants(f, a) if x}
+                        if not fns:
+                            continue
+                        t = lib.resolve(f.unit, i['callee']) if (i.get('callee') is not None and not i.get('intrinsic')) else None
+                        safe = t is not None and self._param_only_called(t, ai, set())
                         for x in fns:
-                            self.escapes.append((f, i, x))
+                            if not safe:
+                                self.escapes.append((f, i, x))
                             self.address_taken[x].append((f, i, 'arg'))
                 elif i.op == 'ret' and i.ops:
                     fns = {x for x in self.fn_constants(f, i.ops[0]) if x}
